@@ -45,7 +45,7 @@ class WorldC05(World):
     PROBES = ('overwrite-smaller', 'overwrite-larger', 'write-after-failed-write', 'read-of-torn-file',
               'read-absent', 'two-digit-count', 'three-digit-count', 'four-elements', 'name-15-chars',
               'name-starts-with-digit', 'zero-count-entry', 'dict-input', 'tuple-read', 'dict-read', 'crlf-newline',
-              'supp-data', 'supp-txt', 'no-date', 'extreme-coefficients', 'zero-coefficient', '>=50-species',
+              'supp-data', 'supp-txt', 'supp-record-shares-a-name', 'second-generation', 'no-date', 'extreme-coefficients', 'zero-coefficient', '>=50-species',
               'clock-jump-before-write', 'fault-did-not-fire', 'comment-with-keyword', 'two-letter-three-digit', 'recovery-after-fault')
     REAL = ('pmutt.io.thermdat.write_thermdat / read_thermdat and helpers', 'pmutt.empirical.nasa.Nasa')
     SIMULATED = ('disk: SimFS shim over a scratch directory (open/write/close errors, ENOSPC after k chars, crash at '
@@ -199,6 +199,9 @@ class WorldC05(World):
             if rng.random() < 0.15:
                 supp = [self._species(rng, used) for _ in range(rng.randint(1, 2))]
             species = [self._species(rng, used) for _ in range(n)]
+            if supp and rng.random() < 0.3:
+                # a supplementary record for a species that is also in the list (an older fit kept for reference)
+                supp[0] = dict(supp[0], name=rng.choice(species)['name'])
             wf = [k for k in sw['fault_kinds'] if k in WRITE_FAULTS]
             if kind == 'write' and wf and rng.random() < sw['fault_rate']:
                 fault = self._fault(rng, wf)
@@ -207,7 +210,7 @@ class WorldC05(World):
                 fault = self._fault(rng, wf)
             return {'c': c, 'op': kind, 'fault': fault, 'jump': jump, 'args': {
                 'path': path, 'species': species, 'as': rng.choice(['list', 'list', 'dict', 'tuple']),
-                'write_date': rng.random() < 0.7, 'supp': supp,
+                'write_date': rng.random() < 0.7, 'supp': supp, 'regen': rng.random() < 0.3,
                 'supp_txt': rng.choice([None, None, '! comment line', '! two\n! lines\n', '! Species APPENDED by J. ENDERS',
                                         '! LEGEND: THERMO data fitted 300-1500 K\n! END of notes']),
                 'newline': rng.choice(['\n', '\n', '\r\n'])}}
@@ -379,6 +382,12 @@ class WorldC05(World):
             if fmt == 'list' and not isinstance(got, list):
                 raise Violation('read-format', '%s: format=list returned %s' % (what, type(got).__name__))
             objs = list(got)
+        if fmt == 'dict':
+            # two records of one name: a dictionary keeps the position of the first and the value of the last
+            dd = {}
+            for d in expected:
+                dd[d['name']] = d
+            expected = list(dd.values())
         gn = [o.name for o in objs]
         en = [d['name'] for d in expected]
         if gn != en:
@@ -419,8 +428,11 @@ class WorldC05(World):
             self.clock.advance(3)
         if name in ('write', 'write_text', 'write_enum'):
             # keep replayed ops inside the quantifier
-            if not a['species'] or len(set(d['name'] for d in self._expected(a))) != len(self._expected(a)):
+            if not a['species'] or any(len(set(d['name'] for d in part)) != len(part)
+                                       for part in (a['species'], a.get('supp') or [])):
                 raise Skip()
+            if set(d['name'] for d in a['species']) & set(d['name'] for d in a.get('supp') or []):
+                ctx.probe('supp-record-shares-a-name')
             self._probe_species(a['species'])
             if a['as'] == 'dict':
                 ctx.probe('dict-input')
@@ -481,6 +493,23 @@ class WorldC05(World):
         if st != 'ok':
             raise Violation('op-must-succeed', '%s: reading back raised %r' % (what, got))
         self._check_read(got, self._expected(a), 'list', what)
+        if a.get('regen'):
+            # second generation: what was read is written again and must still say the same thing
+            self.ctx.probe('second-generation')
+            self.clock.advance(1)
+            date8 = self._date8()
+            a2 = dict(a, species=self._expected(a), supp=None, supp_txt=None)
+            st, val = self._with_seams(lambda: self.real(
+                self.th.write_thermdat, got, filename=fs.path('_gen2.dat'), write_date=a['write_date'],
+                newline=a['newline'], _what='write_thermdat of species read from a thermdat file'), None)
+            if st != 'ok':
+                raise Violation('op-must-succeed', '%s: writing the species just read raised %r' % (what, val))
+            self._check_layout(fs.durable('_gen2.dat'), a2, a['newline'], what + ' (second generation)', date8)
+            st, got2 = self._with_seams(lambda: self.real(self.th.read_thermdat, fs.path('_gen2.dat'), format='list',
+                                                          _what='read_thermdat of the second-generation file'), None)
+            if st != 'ok':
+                raise Violation('op-must-succeed', '%s: reading the second generation raised %r' % (what, got2))
+            self._check_read(got2, self._expected(a), 'list', what + ' (second generation)')
 
     def _op_write(self, a, fault):
         ctx, fs = self.ctx, self.fs
@@ -678,6 +707,8 @@ class WorldC05(World):
                 yield {**op, 'args': {**a, 'supp': None}}
             if a.get('supp_txt'):
                 yield {**op, 'args': {**a, 'supp_txt': None}}
+            if a.get('regen'):
+                yield {**op, 'args': {**a, 'regen': False}}
             if a['newline'] != '\n':
                 yield {**op, 'args': {**a, 'newline': '\n'}}
             if a['as'] != 'list':
